@@ -27,13 +27,19 @@ TRUSTED = ['Coq 8.16.1 kernel + vm_compute (model evaluation in stage C); no axi
            'fix: commits are hand-modelled and tied by stage C (full state comparison incl. a content hash, allocation one-sided)',
            'harness/src/c03.rs (observer: wall time, rows/cells before and after, buffer/layer height, caret, widest row, content hash, peak RSS growth; kind c03st: '
            'the observation vector of harness/src/c09.rs (Term::obs) after the entry and after the probe, row lengths, tab stops)',
-           'process limits of the worker (5 s wall clock, 1 GiB address space, default 8 MiB main-thread stack / 2 MiB sixel threads)']
-UNMODELLED = ['real time and memory (the theorems count iterations and allocated rows/cells; Vec::insert/remove count as one step)',
-              'REP per-iteration weight is an upper estimate (1 + a scroll when margins are set); REP ticks are not part of ticks_bound',
-              'alloc_bound is proved for ICH/DCH/CVT/CBT only; for SU/SD/SL/SR/IL/DL/erase/fill the allocation is compared one-sidedly by stage C',
-              'macro replay cost (only characters replayed, nesting by fuel); OSC, APS, music strings: linear scans, not modelled',
-              'binary loaders (XBin, IDF, Tundra, ADF, BIN, IcyDraw): no cost model, stage S only',
-              'sixel decode cost beyond the repeat loop and the raster request; font loaders beyond glyphs_from_u8_data']
+           'process limits of the worker (5 s wall clock, 1 GiB address space, default 8 MiB main-thread stack / 2 MiB sixel threads)',
+           'extension: Model/Alloc.v (threaded allocation counters), Model/SixelCost.v, Model/LoadCost.v re-state loops of TermCore / Sixel / the C05-C02 loader models with counters; '
+           'every bound theorem carries the equality with the original function, the hand-written parts are tied by the stage-C comparisons listed in RULE; '
+           'the models of C05 / C02 (loaders), C14 (Sixel.v), C09/C01 (TermCore.v, AnsiTok.v) are imported unchanged']
+UNMODELLED = ['real time and memory (the theorems count iterations and allocated rows/cells/bytes; Vec::insert/remove count as one step)',
+              'REP: outside alloc_bound / ticks_bound (final byte b is the known class of both; its threaded counter rep_a is computed, dominates the growth '
+              '(alloc_dominates) and is compared one-sidedly by stage C; its per-iteration weight is an upper estimate)',
+              'macro replay: macro_replay_bound is about macro_chars (characters replayed, nesting through `ESC [ n * z` occurrences, fuel = depth); a macro that '
+              'DEFINES macros while it is replayed is not covered; OSC, APS, music strings: linear scans, not modelled',
+              'binary loaders: the cell loops of BIN / ADF / XBin (both) / Tundra / IDF are counted (load_ticks_bound_*); rows x cells of the loaded layer are proved '
+              'for the sequential loaders (pair_loop) and, for Tundra, the row count; IcyDraw (.icy) and the text loaders (ans, pcb, avt, ...) have no cost model: stage S only',
+              'sixel: colour registers (palette growth by `#n`) are not counted; the decode thread / queue is C14\'s',
+              'font loaders beyond glyphs_from_u8_data; states after a text-area resize (outside Inv09): stage C state comparison + stage S only']
 ASSUMPTIONS = ['the state satisfies the C09 invariant Inv09 (every state reachable without a text-area resize does: Props/C09.v c09_stream); states after a resize '
                'are outside the theorems and covered by stage C (state equality with the model) and stage S (prepared states) only',
                'n >= number of parameters (each parameter occupies at least one byte of the sequence)',
@@ -58,6 +64,11 @@ RULE = ('stage S: the complete control-function table of the quantifier: every C
         'clamped vs unclamped model on the same inputs; STATE comparison (run_state vs kind c03st): every implemented control function in every prepared state '
         '(+ random (final, intermediate) pairs, parameters up to 2^31-1, optional probe suffix): error count, caret, buffer/layer/terminal size, number of rows, margins, mode flags, '
         'tab stops, every row length, content hash must be equal after the entry and after the probe, so a sequence the model rejects must be an error without effect in the code. '
+        'EXTENSION cases of stage C: the rectangle functions (4/5/6 parameters from {0,1,2,h-1,h,h+1,w-1,w,w+1,200,99999,2^31-1}, valid and invalid fill characters, valid DECRQCRA rectangles), '
+        'window resize and the insert/delete key in the same random table, each with the threaded allocation counter and the instances of alloc_bound / ticks_bound; hex macros invoked after a form feed '
+        '(characters printed, read off the caret, = length of the expanded macro <= zlen s (1 + hex_reps)); 24/120 nests of up to four macros (printed <= macro_chars <= B geom c depth, depth exact); '
+        '147/627 sixel payloads (data, cursor moves, colour definitions, repeat groups <= 400, raster attributes <= 300: accept/reject, rows, bytes = rows x longest row <= sixel_image_bound); '
+        '75/250 generated BIN ADF XBin (raw and well-formed compressed runs) Tundra IDF files without SAUCE (accept/reject, width height rows cells of the loaded buffer, counters within load_ticks_bound_*). '
         'non-trivial = the sequence ran a loop at least twice or changed the line table')
 MODEL_IMPORTS = 'From IE Require Import Run.RunC03 Run.RunC03L.\nLocal Open Scope Z_scope.'
 
@@ -103,7 +114,8 @@ def tuples(rng, w, h, count, first_small_only=False):
     vals = [0, 1, w * h, h, w] + BIG
     out = [(), (2147483647,), (1000000,), (65536,), (w * h,), (1,), (0,), (2147483647, 2147483647), (1, 2147483647), (2147483647, 1),
            (8, 2147483647, 2147483647), (65, 1, 1, 2147483647, 2147483647), (1, 1, 2147483647, 2147483647), (1, 1, 1, 1, 2147483647, 2147483647),
-           (0, 2147483647), (1, 1000000), (2, 1000000, 1000000)]
+           (0, 2147483647), (1, 1000000), (2, 1000000, 1000000),
+           (1, 1, 0, 0, 2147483647, min(w, 80))]      # a rectangle that is tall but not wide (DECRQCRA checks each edge separately)
     while len(out) < count:
         k = rng.randint(1, 6)
         t = tuple(rng.choice(vals) for _ in range(k))
@@ -639,7 +651,7 @@ def loader_files(ctx):
     out = []
     def rb(n): return bytes(rng.randrange(256) for _ in range(n))
     def pairs(n): return bytes(rng.choice([32, 65, 66, 0, 1, 219, 255]) if i % 2 == 0 else rng.randrange(256) for i in range(n))
-    q = ctx.n(1, 4)
+    q = ctx.n(3, 10)
     for _ in range(6 * q):
         d = pairs(rng.choice([0, 1, 2, 3, 160, 319, 320, 322, 700, rng.randint(0, 900)]))
         out.append(('bin', 0, d, 'run_ticks_pair %s' % zl(d), {'w': 160, 'body': len(d), 'base': 160 * 25}))
@@ -648,10 +660,19 @@ def loader_files(ctx):
         d = b'\x01' + bytes(rng.randrange(64) for _ in range(192)) + rb(4096) + body
         out.append(('adf', 1, d, 'run_ticks_pair %s' % zl(body), {'w': 80, 'body': len(body), 'base': 0}))
     for _ in range(8 * q):
-        w = rng.choice([1, 2, 3, 80, 80, 300, 4096, 0, 4097]); h = rng.choice([0, 1, 2, 25, 1000, 65535]); fs = rng.choice([0, 8, 16, 32, 33])
-        flags = rng.choice([0, 0, 4, 4, 4, 8, 12, 16, 20])
+        w = rng.choice([1, 2, 3, 80, 80, 80, 300, 300, 4096, 0, 4097]); h = rng.choice([0, 1, 2, 25, 1000, 65535]); fs = rng.choice([0, 8, 16, 16, 32, 33])
+        flags = rng.choice([0, 0, 4, 4, 4, 4, 8, 12, 16, 20])
         comp = bool(flags & 4)
-        body = rb(rng.choice([0, 1, 2, 3, 40, rng.randint(0, 120)])) if comp else pairs(rng.choice([0, 1, 2, 7, 2 * max(1, w) if w < 400 else 50, rng.randint(0, 300)]))
+        if comp and rng.random() < 0.7:          # well-formed runs (Off / Char / Attr / Full with every count), sometimes cut short
+            body = bytearray()
+            for _ in range(rng.randint(1, 8)):
+                ty = rng.choice([0, 0x40, 0x80, 0xC0]); nrun = rng.choice([1, 2, 7, 33, 63, 64])
+                body += bytes([ty | (nrun - 1)])
+                body += {0: pairs(2 * nrun), 0x40: bytes([65]) + rb(nrun), 0x80: bytes([7]) + pairs(nrun), 0xC0: bytes([66, 0x1f])}[ty]
+            body = bytes(body[:len(body) - rng.choice([0, 0, 0, 1, 2])])
+            h = rng.choice([25, 1000, 1000, 65535])
+        else:
+            body = rb(rng.choice([0, 1, 2, 3, 40, rng.randint(0, 120)])) if comp else pairs(rng.choice([0, 1, 2, 7, 2 * max(1, w) if w < 400 else 50, rng.randint(0, 300)]))
         d = b'XBIN\x1a' + struct.pack('<HHBB', w, h, fs, flags) + body
         out.append(('xb', 2, d, ('run_ticks_xbc %d %s' % (w, zl(body))) if comp else 'run_ticks_pair %s' % zl(body), {'w': w, 'body': len(body), 'base': 0, 'comp': comp}))
     for _ in range(6 * q):
@@ -760,6 +781,8 @@ def correspondence(ctx):
         if (inter, final) == ('', 't'): t = (8, rng.choice(vals), rng.choice(vals)) if rng.random() < 0.8 else t
         if (inter, final) == ('', '~'): t = (rng.choice([1, 2, 2, 3, 4, 5, 7]),)
         if final == 'b' and t and t[0] > 3000: t = (rng.choice([0, 1, w, w * h, 3000]),) + t[1:]
+        # REP through margins scrolls once per wrapped row; the model walks the region cell by cell (twice with the threaded counter): keep the count small on big screens
+        if final == 'b' and t and w * h > 240 and t[0] > 400: t = (rng.choice([w, 2 * w + 1, 400]),) + t[1:]
         meta.append((inter, final, w, h, pre, csi(inter, final, t), t))
     cases = ['seq 0 %d %d %s %s' % (w, h, hx(pre), hx(seq)) for _, _, w, h, pre, seq, _ in meta]
     exprs = ['run_seq %d %d %s %s' % (w, h, zl(pre), zl(seq)) for _, _, w, h, pre, seq, _ in meta]
@@ -979,16 +1002,22 @@ def replay(ctx, body):
     print(json.dumps(body, indent=1))
     return 1
 
-LEVEL_TEXT = ('PARTIAL (by design: time and memory are runtime facts). Machine-checked (Coq, no axioms): for every CSI control function of the ANSI parser '
-              '(all final bytes, no intermediate and SP) on every state of the C09 invariant, the number of primitive calls is at most 4(n+1) x screen measure '
-              '(cost_bound), total inner iterations at most 4(n+1) x measure^2 (ticks_bound, REP excluded), unconditionally for SU SD ICH DCH IL DL SL SR CVT CBT '
-              'CUU ECH ED EL SGR after the ten clamp fixes, and for REP only under count <= tw*th (KnownC03_rep, rep_refuted/rep_linear show linear growth); '
-              'the counters are attached to the very model functions of C09/C01 (tick_version_same_state). Hex-macro repeat, macro recursion, sixel repeat/raster '
-              'are refuted classes with witnesses; glyph loading, Avatar repeat, window resize, rectangular areas are bounded. The property\'s own limits '
-              '(5 s, 1 GiB, stack) are applied to the complete control-function table on the real code by stage S.')
+LEVEL_TEXT = ('PARTIAL (by design: time and memory are runtime facts). Machine-checked (Coq, no axioms), for every state of the C09 invariant and ALL parameter values: '
+              'every CSI control function of the ANSI parser (all final bytes; no intermediate, SP, $ and DECRQCRA) makes at most 4(n+1) x screen measure primitive calls (cost_bound), '
+              'at most 8(n+1) x measure^2 weighted inner iterations (ticks_bound, ticks_bound_sp/_dollar/_rqcra; the rectangle functions are clipped to the screen: rect_clip) and '
+              'allocates at most 8(n+1) x measure rows + cells (alloc_bound, alloc_bound_sp/_dollar; threaded allocation counters that provably dominate the growth of the line table: '
+              'alloc_dominates, alloc_counts_growth) - unconditionally for SU SD ICH DCH IL DL SL SR CVT CBT CUU CUD ECH ED EL SGR DECFRA DECERA DECSERA DECRQCRA window resize after the ten clamp fixes; '
+              'REP is the known class (rep_refuted / rep_linear). Conditional bounds with the known class as the explicit parameter: hex-macro repeat groups (hexmacro_bound: '
+              'work and expansion <= (1 + largest repeat count) x length), macro replay (macro_replay_bound: geometric in the nesting depth; recursion refuted), the sixel decoder '
+              '(sixel_ticks_bound: iterations <= payload + executed repeat counts; sixel_alloc_bound / sixel_image_bound: bytes <= 4 max(T, declared width) x max(6T+6, declared height)), '
+              'the cell loops of the binary loaders BIN ADF XBin Tundra IDF (load_ticks_bound_*: cells stored <= bytes (x 65 for compressed XBin) + declared run lengths; rows x cells of the loaded layer). '
+              'The counters are attached to the very model functions of C09/C01/C14/C05/C02 (tick_version_same_state, alloc_version_same_state, *_arms_only, the fst-equalities inside the bounds). '
+              'The property\'s own limits (5 s, 1 GiB, stack) are applied to the complete control-function table on the real code by stage S.')
 LEVEL_NOTE = ('Theorems speak about iteration/allocation counts of the model; the tie to the code is stage C (full state equality after each sequence, '
               'allocation one-sided, time one-sided with a 50x calibrated factor; full terminal-state equality after short inputs in 40 prepared states incl. resized text areas) '
               'and stage S (absolute limits on the real code: single control functions, the same in prepared states, and probe suffixes on the state they leave). '
-              'Known classes: REP, hex-macro repeat, macro recursion, sixel raster/repeat.')
+              'Extension: stage C also compares the threaded allocation counter and instances of alloc_bound / ticks_bound on every CSI case, the rectangle functions, '
+              'characters printed by hex macros and nested macros (vs hexmacro_bound / macro_replay_bound), rows / bytes of decoded sixel images, and width / height / rows / cells of '
+              'buffers loaded from generated BIN ADF XBin Tundra IDF files. Known classes: REP, hex-macro repeat, macro recursion, sixel raster/repeat, declared sizes of loaders.')
 TECHNIQUE = ('Coq proof over tick-annotated model functions (arithmetic bounds from the C09 invariant) + exhaustive control-function table under process limits, '
              'on a fresh screen and on prepared states, with probe suffixes and terminal-state comparison against the model')
